@@ -280,7 +280,11 @@ def opWrite (e : Endian) (enc : Encoding) (uo : UnitOffs) (hasRefs : Bool) (offs
   | .implicitPointer r byteOffset => do
     let (bs, fx) ← writeDRef e hasRefs r (implicitPointerRefSize enc) (pos + 1)
     pure (vOp enc 0xa0 0xf2 :: (bs ++ Leb.encodeS byteOffset), fx)
-  | .piece n => .ok (0x93 :: Leb.encodeU n, [])
+  | .piece n =>
+    -- `if size_in_bytes > u64::MAX / 8 { return Err(Error::ValueTooLarge) }` (the `fix:` for C15-1:
+    -- the reader reports piece sizes in bits as `u64`), before anything is written
+    if n > (2 ^ 64 - 1) / 8 then .err .wValueTooLarge
+    else .ok (0x93 :: Leb.encodeU n, [])
   | .bitPiece s o => .ok (0x9d :: (Leb.encodeU s ++ Leb.encodeU o), [])
   | .parameterRef entry => do
     let o ← entryOffset uo entry
@@ -441,8 +445,7 @@ def opImage (e : Endian) (enc : Encoding) (uo : UnitOffs) (hasRefs : Bool) (offs
 
 /-- Operand ranges of the Rust types (`u64`, `i64`, `Register(u16)`, `u8`, `u32`, `DwOp(u8)`), plus:
 `simple` is one of the operand-free opcodes `Expression::op` is documented for; raw bytecode has no
-operation-level meaning; and **`piece` is below 2^61 bytes** — the reader reports piece sizes in
-bits as `u64` and rejects larger ones (`InvalidPiece`), see finding C15-1. -/
+operation-level meaning. -/
 def OpWf : Operation → Prop
   | .raw _ => False
   | .simple opcode => (simpleImage opcode).isSome
@@ -459,7 +462,7 @@ def OpWf : Operation → Prop
   | .register r => r < 2 ^ 16
   | .implicitValue data => data.length < 2 ^ 64
   | .implicitPointer _ o => -(2 : Int) ^ 63 ≤ o ∧ o < 2 ^ 63
-  | .piece n => n < 2 ^ 61
+  | .piece n => n < 2 ^ 64
   | .bitPiece s o => s < 2 ^ 64 ∧ o < 2 ^ 64
   | .wasmLocal i => i < 2 ^ 32
   | .wasmGlobal i => i < 2 ^ 32
